@@ -39,9 +39,15 @@ type LCase struct {
 	// ExtRef != "": the module imports a Swagger document (api/spec.yaml under the root)
 	// one of whose definitions is a $ref to this other file; RefInside says whether that
 	// path stays inside the root.
+	// PinFile: the project has .sysl/modules.yaml
+	PinFile   bool   `json:"pin_file,omitempty"`
 	ExtRef    string `json:"external_ref,omitempty"`
 	RefInside bool   `json:"external_ref_inside,omitempty"`
 }
+
+// fileCanary is the real-disk target of the file:// reference; it is written for the run of
+// such a case and removed afterwards.
+var fileCanary = filepath.Join(os.TempDir(), "verif-c18-canary", "secret.yaml")
 
 // GenExtRefCase: a foreign specification that refers to another file.  The referenced file
 // is read "on behalf of a specification" like an import is.
@@ -57,6 +63,7 @@ func GenExtRefCase(seed uint64) *LCase {
 		{"../../secret.yaml", false},        // from <root>/api: one level above the root
 		{"../../../etc/secret.yaml", false}, // further up and down again
 		{"/secret/secret.yaml", false},      // absolute
+		{"file://" + fileCanary, false},     // an absolute file URI (its target exists on the real disk for the run)
 		{"../defs/common.yaml", true},       // a sibling directory inside the root
 		{"common.yaml", true},               // next to the specification
 		{"./sub/../common.yaml", true},
@@ -176,6 +183,11 @@ func GenLCase(seed uint64) *LCase {
 	}
 	if c.Marker != "" {
 		c.Files[path.Join(c.Root, c.Marker, "keep")] = ""
+	}
+	if (c.Marker == ".sysl" || c.Explicit) && r.Chance(0.3) {
+		// a pin file of remote imports in the project's .sysl directory (no pins)
+		c.Files[path.Join(c.Root, ".sysl", "modules.yaml")] = "imports: []\n"
+		c.PinFile = true
 	}
 	// module argument
 	if r.Chance(0.15) {
@@ -338,20 +350,30 @@ func RunLCaseExec(c *LCase, cnt core.Counters, exec Exec, allow []string) (*LRes
 		}
 		return nil
 	}
-	if c.ExtRef != "" && exec == nil {
+	var canaryDir string
+	var canaryBefore map[string]string
+	if (c.ExtRef != "" || c.PinFile) && exec == nil {
 		// canaries on the real disk: the same referenced file, placed where a read that
 		// bypasses the simulated disk and resolves against the working directory of the
-		// process would find it
+		// process would find it; and a pin file that is not YAML where a pin file looked up
+		// relative to the working directory would be
 		if tmp, err := os.MkdirTemp("", "extref"); err == nil {
 			defer os.RemoveAll(tmp)
 			cw := filepath.Join(tmp, "a", "b", "c", "cw")
-			_ = os.MkdirAll(cw, 0o755)
+			_ = os.MkdirAll(filepath.Join(cw, ".sysl"), 0o755)
 			_ = os.MkdirAll(filepath.Join(tmp, "a", "b", "etc"), 0o755)
 			canary := []byte(c.Files["/secret/secret.yaml"])
 			_ = os.WriteFile(filepath.Join(tmp, "a", "b", "c", "secret.yaml"), canary, 0o644)
 			_ = os.WriteFile(filepath.Join(tmp, "a", "b", "etc", "secret.yaml"), canary, 0o644)
+			_ = os.WriteFile(filepath.Join(cw, ".sysl", "modules.yaml"), []byte("{{{ not: [yaml\n"), 0o644)
+			if strings.HasPrefix(c.ExtRef, "file://") {
+				_ = os.MkdirAll(filepath.Dir(fileCanary), 0o755)
+				_ = os.WriteFile(fileCanary, canary, 0o644)
+				defer os.RemoveAll(filepath.Dir(fileCanary))
+			}
 			if old, err := os.Getwd(); err == nil && os.Chdir(cw) == nil {
 				defer func() { _ = os.Chdir(old) }()
+				canaryDir, canaryBefore = tmp, snapshotReal(tmp)
 			}
 		}
 	}
@@ -394,6 +416,12 @@ func RunLCaseExec(c *LCase, cnt core.Counters, exec Exec, allow []string) (*LRes
 	}()
 
 	var vs []V
+	if canaryDir != "" {
+		if after := snapshotReal(canaryDir); !sameSnapshot(canaryBefore, after) {
+			vs = append(vs, V{Class: "escape", Detail: fmt.Sprintf("the working directory of the process (outside root %q, on the real disk) was written to during the compile: %s",
+				expRoot, diffSnapshot(canaryBefore, after))})
+		}
+	}
 	exp := expectL(c, expRoot)
 	if runaway {
 		sig := ""
@@ -585,4 +613,39 @@ func expectL(c *LCase, expRoot string) lexpect {
 	e.apps = core.SortedKeys(apps)
 	_ = syscall.ENOENT
 	return e
+}
+
+// snapshotReal lists the files below dir on the real disk with their contents.
+func snapshotReal(dir string) map[string]string {
+	out := map[string]string{}
+	_ = filepath.Walk(dir, func(p string, info os.FileInfo, err error) error {
+		if err != nil {
+			return nil
+		}
+		if info.IsDir() {
+			out[p] = "<dir>"
+		} else if b, err := os.ReadFile(p); err == nil {
+			out[p] = string(b)
+		}
+		return nil
+	})
+	return out
+}
+
+func sameSnapshot(a, b map[string]string) bool { return diffSnapshot(a, b) == "" }
+
+func diffSnapshot(a, b map[string]string) string {
+	for _, k := range core.SortedKeys(b) {
+		if v, ok := a[k]; !ok {
+			return "new " + k
+		} else if v != b[k] {
+			return "changed " + k
+		}
+	}
+	for _, k := range core.SortedKeys(a) {
+		if _, ok := b[k]; !ok {
+			return "removed " + k
+		}
+	}
+	return ""
 }
